@@ -49,6 +49,13 @@ int _vnacal_new_solve_simple(vnacal_new_solve_state_t *vnssp,
     int rv = -1;
 
     /*
+     * Start from the perfect error terms.  The convergence test below
+     * compares x_vector with prev_x_vector over all systems, including
+     * those not solved yet, so no element may be left indeterminate.
+     */
+    _vnacal_new_solve_init_x_vector(vnssp, x_vector, x_length);
+
+    /*
      * If a measurement error vector was given, calculates weights
      * for each measurement and allocate the prev_v_vector.
      */
